@@ -50,15 +50,23 @@ def _base():
     return importlib.import_module("props.c04")
 
 
+def _cx():
+    return importlib.import_module("props.c04_cx")
+
+
 def val(j):
     if isinstance(j, dict):
-        return float(j["f"])
+        if "f" in j:
+            return float(j["f"])
+        return _cx().val(j)                  # {"c": [re, im]} complex | {"b": bool}   (entry "ghist")
     if isinstance(j, str):
         return Fraction(j)
     return int(j)
 
 
 def exact(j):
+    if isinstance(j, dict) and "f" not in j:
+        return _cx().exact(j)                # a Gaussian rational: bare when im = 0, else [re, im]
     return enc(val(j))
 
 
@@ -247,11 +255,13 @@ def _coef_exact(v):
 
 
 def _ctype(v):
-    return "float" if isinstance(v, dict) else "frac" if isinstance(v, str) else "int"
+    if isinstance(v, dict):
+        return "float" if "f" in v else "complex" if "c" in v else "bool"
+    return "frac" if isinstance(v, str) else "int"
 
 
 def request(c):
-    return {"entry": "hist", "ops": walk(c)["ops"]}
+    return {"entry": c.get("entry", "hist"), "ops": walk(c)["ops"]}
 
 
 # ---------------------------------------------------------------------------------------------
@@ -284,6 +294,8 @@ def _same_dict(real, mirror):
 
 def _safe_enc(y):
     try:
+        if isinstance(y, complex):
+            return _cx().genc(_cx().g_of(y))
         return enc(y)
     except Exception:
         return "unencodable:" + type(y).__name__
@@ -446,7 +458,8 @@ def run_here(c):
                                 ended = True
                                 break
                     o = {"k": "outs", "ys": [_safe_enc(y) for y in ys], "ended": ended,
-                         "float": any(isinstance(y, float) for y in ys)}
+                         "float": any(isinstance(y, float) for y in ys),
+                         "exact_types": [isinstance(y, (int, Fraction)) and not isinstance(y, bool) for y in ys]}
                 except Exception as e:
                     o = {"k": "err", "err": err_kind(e), "msg": str(e)[:80], "got": [_safe_enc(y) for y in ys]}
             obs.append(o)
@@ -507,7 +520,7 @@ def _zygote_start():
                 try:
                     try:
                         cj = json.loads(line)
-                        ob = run_here(cj) if cj.get("entry") == "hist" else dict(_base().impl_call(cj), isolated=True)
+                        ob = run_here(cj) if cj.get("entry") in ("hist", "ghist") else dict(_base().impl_call(cj), isolated=True)
                     except Exception as e:
                         import traceback
                         ob = {"err": "UNMAPPED:" + err_kind(e), "trace": traceback.format_exc()[-800:]}
@@ -626,6 +639,9 @@ def _problems(c, io, drv):
         return [("model", "harness", -1, "history could not be run: %s %s" % (io["err"], io.get("trace", "")[-300:]))]
     w = walk(c)
     out = []
+    cx = c.get("entry") == "ghist"                    # numbers are Gaussian rationals (c04_cx.G)
+    X = _cx()
+    D = X.gdec if cx else dec
     ys_all = {}     # stream -> spec outputs so far
     callinfo = {}   # stream -> model call observation
     for i, st in enumerate(c["steps"]):
@@ -657,9 +673,9 @@ def _problems(c, io, drv):
             callinfo[st["s"]] = mo
             ys_all[st["s"]] = []
             for name, dense in (("numdict", mo["b"]), ("dendict", mo["a"])):
-                want = [[k, v] for k, v in enumerate(dense) if dec(v) != 0]
+                want = [[k, v] for k, v in enumerate(dense) if D(v) != 0]
                 try:
-                    same = [(k, dec(v)) for k, v in o[name]] == [(k, dec(v)) for k, v in want]
+                    same = [(k, D(v)) for k, v in o[name]] == [(k, D(v)) for k, v in want]
                 except Exception:
                     same = False
                 if not same:
@@ -680,26 +696,36 @@ def _problems(c, io, drv):
             s = st["s"]
             info = callinfo.get(s)
             sr = w["streams"].get(s, {})
-            ys_all.setdefault(s, []).extend(dec(v) for v in so["ys"])
+            ys_all.setdefault(s, []).extend(D(v) for v in so["ys"])
             # exact regime: integer coefficients are formatted as exact literals and all data are Fractions; the
             # all-zero filter formats the ZERO VALUE into its source (`yield 1/3` is a float)
-            zero_lit = info is not None and info.get("ir", {}).get("kind") == "const" and \
+            zero_lit = info is not None and info.get("ir", {}).get("kind") == "const" and not cx and \
                 Fraction(val(sr.get("zero", "0/1"))).denominator != 1
             isexact = bool(sr.get("coef_exact")) and w["all_frac"] and not zero_lit
             for kind, ref in (("model", mo), ("spec", so)):
                 d = None
                 try:
-                    got = [dec(v) for v in o["ys"]]
+                    got = [D(v) for v in o["ys"]]
                 except Exception:
                     got = None
                     d = "an output is not a number: %r" % (o["ys"][:6],)
-                want = [dec(v) for v in ref["ys"]]
+                want = [D(v) for v in ref["ys"]]
                 if got is not None:
                     if len(got) != len(want):
                         d = "%d outputs instead of %d" % (len(got), len(want))
                     else:
                         if isexact or info is None:
                             tol = [0] * len(want)
+                        elif cx:
+                            gb, ga, gm = ([X.gdec(v) for v in info[f]] for f in ("b", "a", "mem"))
+                            full = ys_all[s]
+                            seen = [X.gdec(v) for v in so.get("seen", [])]
+                            gz = X.g_of(val(sr["zero"]))
+                            tol, mags = X.bounds(gb, ga, gm, gz, seen, full)
+                            if all(v.is_gint() for v in gb + ga + gm + seen + [gz]) and ga and ga[0] in (X.G(1), X.G(-1)) \
+                                    and (not mags or max(mags) < 2 ** 52):
+                                tol = [0] * len(full)         # Gaussian integers, no division: floats are exact too
+                            tol = tol[len(full) - len(want):]
                         else:
                             b = [dec(v) for v in info["b"]]
                             a = [dec(v) for v in info["a"]]
@@ -707,11 +733,14 @@ def _problems(c, io, drv):
                             full = ys_all[s]
                             tol = base.err_bounds(b, a, mem, dec(exact(sr["zero"])), [dec(v) for v in so.get("seen", [])], full)
                             tol = tol[len(full) - len(want):]
+                        et = o.get("exact_types") or [False] * len(got)
                         for n, (g, x, t) in enumerate(zip(got, want, tol)):
-                            if isinstance(g, float) or isinstance(x, float):
+                            if g is None or x is None or isinstance(g, float) or isinstance(x, float):
                                 d = "non-finite output"
                                 break
-                            if abs(g - x) > t:
+                            if cx and et[n]:
+                                t = 0                          # computed in int / Fraction arithmetic
+                            if ((g - x).abs1() if cx else abs(g - x)) > t:
                                 d = "output %d of this request is %s instead of %s" % (n, g, x)
                                 break
                 if d is None and o["ended"] != ref["ended"]:
@@ -875,7 +904,23 @@ MEM_OTHER = ["tuple", "copy", "gen", "iter", "stream", "deque", "callable_copy",
 X_FLAVOURS = ["list", "list", "list", "iter", "gen", "stream", "tuple", "copy", "deque"]
 
 
+_MODE = {"cx": False}      # True while the complex histories (entry "ghist") are generated
+
+
+def _gi(re, im):
+    return {"c": [float(re), float(im)]}
+
+
+CX_COEFS = [0, 1, -1, _gi(0, 1), _gi(0, -1), _gi(1, 1), 2, -2, _gi(0, 2), _gi(1, 0), _gi(-1, 0), _gi(0, 0), _gi(2, -1), {"b": True}, 3]
+CX_LEADS = [1, 1, -1, _gi(1, 0), _gi(-1, 0), _gi(0, 1), _gi(0, -1), 2, {"b": True}]
+
+
 def _frac(rng):
+    if _MODE["cx"]:
+        r = rng.random()
+        if r < 0.7:
+            return _gi(rng.randint(-4, 4), rng.randint(-4, 4))
+        return rng.randint(-9, 9) if r < 0.9 else "%d/1" % rng.randint(-9, 9)
     return "%d/%d" % (rng.randint(-9, 9), rng.choice(SAMPLE_DENS))
 
 
@@ -884,6 +929,11 @@ def _samples(rng, n):
 
 
 def _coefs(rng, n, lead_nonzero=False):
+    if _MODE["cx"]:
+        v = [rng.choice(CX_COEFS) for _ in range(n)]
+        if lead_nonzero and v:
+            v[0] = rng.choice(CX_LEADS)
+        return v
     v = [rng.choice(COEF_INTS) for _ in range(n)]
     if lead_nonzero and v:
         v[0] = rng.choice([1, 1, -1, 2, -2, 3])
@@ -891,6 +941,8 @@ def _coefs(rng, n, lead_nonzero=False):
 
 
 def _twin(v, ctype):
+    if ctype == "complex":
+        return _gi(val(v), 0)
     if ctype == "float":
         return {"f": float(val(v))}
     if ctype == "frac":
@@ -992,6 +1044,8 @@ def _rand_filter(B, rng, kind=None, order=None):
 
 
 def _zero(rng):
+    if _MODE["cx"]:
+        return rng.choice(["0/1", 0, _gi(0, 0), _gi(0, 1), 7, _gi(2, -1), {"f": 0.0}])
     return rng.choice(["0/1", "0/1", "0/1", "7/1", "-5/2", "1/3"])
 
 
@@ -1119,7 +1173,11 @@ def _h_twins(rng):
         b[-1] = 3
     types = rng.choice([["float", "int"], ["int", "float"], ["float", "frac"], ["frac", "float"], ["float", "int", "frac"],
                         ["float", "int", "float"], ["int", "int"], ["int", "frac"]])     # also equal-but-not-identical filters
-    x = B.new("x", _samples(rng, rng.randint(3, 6)))
+    if _MODE["cx"]:                          # … and the complex twins `c + 0j` of the real coefficients
+        types = rng.choice([["complex", "int"], ["int", "complex"], ["complex", "float"], ["float", "complex"], ["complex", "frac"],
+                            ["complex", "int", "complex"], ["int", "complex", "float"], ["complex", "complex"]])
+    x = B.new("x", _samples(rng, rng.randint(3, 6)) if not _MODE["cx"] or rng.random() < 0.5
+              else ["%d/%d" % (rng.randint(-9, 9), rng.choice(SAMPLE_DENS)) for _ in range(rng.randint(3, 6))])
     fs = []
     for t in types:
         bb, aa = [_twin(v, t) for v in b], [_twin(v, t) for v in a]
@@ -1255,6 +1313,7 @@ def _h_malformed(rng):
     return B.case()
 
 
+CX_TEMPLATES = [(_h_memalias, 2), (_h_twice, 3), (_h_twins, 4), (_h_coefmut, 2), (_h_inputmut, 1), (_h_random, 2)]
 TEMPLATES = [(_h_memalias, 5), (_h_twice, 3), (_h_twins, 3), (_h_coefmut, 3), (_h_inputmut, 3), (_h_random, 4), (_h_malformed, 1)]
 
 
@@ -1265,6 +1324,20 @@ def generate(rng, tier, scale=1):
     for i in range(n):
         t = pool[i % len(pool)] if i < 2 * len(pool) else rng.choice(pool)
         out.append(t(rng))
+    # complex histories (entry "ghist": the same templates over Q(i): Gaussian-integer coefficients / samples / memories,
+    # complex twins `c + 0j` of int / float / Fraction filters in both orders)
+    rcx = __import__("random").Random(rng.random())
+    ncx = (260 if tier == "quick" else 4000) * scale
+    pool_cx = [t for t, wgt in CX_TEMPLATES for _ in range(wgt)]
+    _MODE["cx"] = True
+    try:
+        for i in range(ncx):
+            t = pool_cx[i % len(pool_cx)] if i < 2 * len(pool_cx) else rcx.choice(pool_cx)
+            h = t(rcx)
+            h["entry"] = "ghist"
+            out.append(h)
+    finally:
+        _MODE["cx"] = False
     return out
 
 
